@@ -130,7 +130,7 @@ prop('C02', COMMON +
      'every temp-name counter is synchronised back into the heap on every path before the next one is created. GUARD-TABLE: '
      'the loop optimiser\'s operator tables (guard extraction, negation, rebuild) are evaluated from MIR for every input and '
      'compared with integer order logic. BRANCH-PAIR-EMPTY: an emptiness test of one branch list of an IfElse comes with a test of the sibling list. INLINE-REWRITES-ALL: every expression operand of a statement rebuilt by the inliner\'s renaming function comes out of the renaming. '
-     'Does not decide loop closed forms, LICM legality, inlining capture-avoidance or escape analysis.',
+     'PEEK-THEN-VISIT: where a function of the walker family inspects the variant of a child node it reaches through a slot of its parent, the variants it does not name are still handed to the family\'s visitor for that node type on every path (they are not treated as leaves). PEEK-THEN-VISIT: where a function of the walker family inspects the variant of a child node it reaches through a slot of its parent, the variants it does not name are still handed to the family\'s visitor for that node type on every path (they are not treated as leaves). Does not decide loop closed forms, LICM legality, inlining capture-avoidance or escape analysis.',
      [const_arith.run, optimizer.run_dce_keep, optimizer.run_fold_table, optimizer.run_swap_table, optimizer.run_branch_pair, optimizer.run_inline_rewrites_all, guard_table.run, traversal.run_tuple_components, scope.run_bracket, scope.run_counter_sync,
       TI.make(['T-dce', 'T-conditional_constant_propagation', 'T-inlining', 'T-local_value_numbering',
                'T-scalar_replacement', 'T-unused_name_elimination', 'T-loop_induction_variable_elimination'])])
@@ -164,7 +164,7 @@ prop('C08', COMMON +
      'child printed in an undelimited position (unary operand, binary operands, lambda body, chain base) reaches the '
      'precedence decider; the plain printer may take a left operand only behind an equal-precedence test and a right operand '
      'only behind same-operator + associative-operator tests (reported as the known regrouping finding). TYPE-WALKER: the '
-     'annotation printer visits every child position. PLAIN-POSITION: a child the printer emits without a parenthesis decision is parsed with the top production of the expression grammar (productions ordered by fall-through). CONTINUATION-LEVELS: the look-ahead path that continues a parsed expression applies the continuation of every operator level. PAREN-UNARY-LEVEL, LIST-END-TOKEN, LITERAL-SOURCE as described in DESIGN.md. Does not decide layout.',
+     'annotation printer visits every child position. PLAIN-POSITION: a child the printer emits without a parenthesis decision is parsed with the top production of the expression grammar (productions ordered by fall-through). CONTINUATION-LEVELS: the look-ahead path that continues a parsed expression applies the continuation of every operator level. PAREN-UNARY-LEVEL, LIST-END-TOKEN, LITERAL-SOURCE as described in DESIGN.md. PEEK-THEN-VISIT: where a function of the walker family inspects the variant of a child node it reaches through a slot of its parent, the variants it does not name are still handed to the family\'s visitor for that node type on every path (they are not treated as leaves). PEEK-THEN-VISIT: where a function of the walker family inspects the variant of a child node it reaches through a slot of its parent, the variants it does not name are still handed to the family\'s visitor for that node type on every path (they are not treated as leaves). Does not decide layout.',
      [printer_rules.run_prec_iso, printer_rules.run_literal_parity, printer_rules.run_paren_assoc, printer_rules.run_paren_sink, printer_rules.run_paren_unary_level, printer_rules.run_plain_position, printer_rules.run_continuation_levels, printer_rules.run_pattern_parens, shape.run_literal_source, parser_progress.run_list_end_token, type_walker.make(('samlang_printer',), 1), TI.make(['T-prt'])])
 
 prop('C09', COMMON +
@@ -204,7 +204,7 @@ prop('C15', COMMON +
      'fields of the checker\'s SsaAnalysisResult, which is only obtained from perform_ssa_analysis_on_module (no second '
      'scope resolver). NAV-VIA-SSA: every path of a navigation query that handles a local-name hit passes through the SSA '
      'lookup. LOC-GUARD: a cursor-position test gating the descent into a child tests a location of that child or of a node '
-     'containing it (sibling locations only where the parser provably widens them). RENAME-RELEVANCE: the unconditional rewrite of a variable occurrence is reached only behind a range test of the expression (or for the single child of a binder-free node). IDENT-ALPHABET keyword-gate: the new name is read back by the parser before a renaming is applied. Does not decide capture-freedom of the new name or behavioural identity after rename.',
+     'containing it (sibling locations only where the parser provably widens them). RENAME-RELEVANCE: the unconditional rewrite of a variable occurrence is reached only behind a range test of the expression (or for the single child of a binder-free node). IDENT-ALPHABET keyword-gate: the new name is read back by the parser before a renaming is applied. PEEK-THEN-VISIT: where a function of the walker family inspects the variant of a child node it reaches through a slot of its parent, the variants it does not name are still handed to the family\'s visitor for that node type on every path (they are not treated as leaves). Does not decide capture-freedom of the new name or behavioural identity after rename.',
      [ssa_shared.run, ssa_shared.run_nav_via_ssa, ssa_shared.run_ident_alphabet, printer_rules.run_pattern_parens, loc_guard.run, loc_guard.run_rename_relevance, scope.run_iflet_else, TI.make(['T-ren', 'T-ssa'])])
 
 # properties whose reports on the unchanged tree are not yet triaged are not claimed
